@@ -3,7 +3,8 @@
 S1 nullable string fields are tested before any dereferencing use        S2 'last character' indexing only on non-empty strings
 S3 backward pointer walks have a lower bound (or a documented sentinel)   S4 merge output array bound (= C03.M4/M5)
 S5 no buffer overrun by length (= C14 overflow verdicts)                  S6 no use after free / double free (= C20 typestate)
-S7 the result of realloc() is what is used afterwards                     S8 every loop terminates (recognised progress argument)"""
+S7 the result of realloc() is what is used afterwards                     S8 every loop terminates (recognised progress argument)
+S9 stores into counted heap arrays (pointer/struct arrays sized by a counter) stay inside the allocation"""
 import json
 import os
 import re
@@ -256,6 +257,51 @@ def s3(prog, ctx, fns, exc):
                 ctx.fail("S3", inst, w.where, "the pointer is decremented while the pointee matches, with no lower bound: it walks off the start of the buffer",
                          key="backwalk:" + key)
     ctx.floor("C04.S3 backward walks", n, 4)
+    # S3b: a pointer set to the END of a string (X + strlen(X)) may be written through at offset +k only after it has certainly
+    # been moved back k times - otherwise the store lands behind the terminator (for the empty string: behind the buffer)
+    for f in fns:
+        rd3 = ReachingDefs(f)
+        cfg = f.cfg
+        for d in rd3.defs:
+            if d.kind not in ("init", "assign") or d.rhs is None or d.node is None:
+                continue
+            m3 = re.match(r"^([\w$.]+) \+ strlen\(([\w$.]+)\)$", render(d.rhs))
+            if not m3 or m3.group(1) != m3.group(2):
+                continue
+            v = d.var
+            dec_blocks = set(cfg.block_of(x) for x in f.walk() if x.k == "UnaryOperator" and x.j.get("op") == "--" and render(x.children[0]) == v)
+            succ3 = {(b, i): s2 for (b, i, s2) in cfg.edges()}
+            for lhs, rhs, st, kind in query.stores(f):
+                l = lhs.strip()
+                off = None
+                if l.k == "UnaryOperator" and l.j.get("op") == "*":
+                    p3 = l.children[0].strip()
+                    if p3.k == "BinaryOperator" and p3.j.get("op") == "+" and render(p3.children[0]) == v:
+                        off = p3.children[1].const_value()
+                elif l.k == "ArraySubscriptExpr" and render(l.children[0]) == v:
+                    off = l.children[1].const_value()
+                if not off or off < 1:
+                    continue
+                if d not in rd3.reaching(v, st) and not any(x.var == v and x.kind == "update" for x in rd3.reaching(v, st)):
+                    continue
+                inst = "%s: `%s` writes at most the terminator" % (f.name, render(st))
+                sb3 = cfg.block_of(st)
+                def moved_or_inside(lit, b, i, v=v):
+                    if succ3.get((b, i)) in dec_blocks or b in dec_blocks:
+                        return True
+                    # `*v != 0` : v does not stand on the terminator, so v+1 is at most the terminator
+                    return lit is not None and lit.kind == "truth" and lit.pol and lit.atom in ("*" + v, v + "[0]")
+                ok3, cut3 = cfg.all_paths_cut(sb3, moved_or_inside, start=cfg.block_of(d.node))
+                # a non-empty string established on the way is as good for offset 1 only if the walk then stops at a character of it: not assumed
+                if off == 1 and ok3 and cut3:
+                    ctx.ok("S3", inst, st.where, "`%s` starts at the terminator and is moved back at least once (or tested not to stand on the terminator) on every path to the store" % v)
+                elif off == 1:
+                    ctx.fail("S3", inst, st.where,
+                             "`%s` starts at the terminator of %s (%s) and a path reaches the store without having moved it back (a `--%s` that sits behind a "
+                             "short-circuit test is not always executed): for an empty string the store writes one byte behind the terminator" % (
+                                 v, m3.group(1), render(d.rhs), v), key="end-write:%s:%s" % (f.name, v))
+                else:
+                    ctx.inconclusive("S3", inst, st.where, "offset %s from an end-of-string pointer" % off)
 
 
 def _exception_holds(prog, f, key):
@@ -622,3 +668,26 @@ def run(prog, ctx):
             own_rules.report(ctx, "S6", n, a, only_kinds=("double-free", "use-after-free", "free-after-move", "dangling-out-pointer"))
     s7(prog, ctx, fns)
     s8(prog, ctx, fns, exc)
+    s9(prog, ctx, reach)
+
+
+def s9(prog, ctx, reach):
+    """stores into counted heap arrays (pointer / struct arrays sized by a counter) stay inside the allocation"""
+    from sa import arrays
+    n = 0
+    und = 0
+    for util in (False, True):
+        sites, u = arrays.analyse(prog, util=util)
+        und += u
+        for st in sites:
+            if not util and st.fn.name not in reach:
+                continue
+            n += 1
+            inst = "%s: %s" % (st.fn.name, render(st.store)[:70])
+            if st.verdict == "ok":
+                ctx.ok("S9", inst, st.store.where, st.why)
+            else:
+                ctx.fail("S9", inst, st.store.where, "the store writes behind the array `%s` allocated at line %d: %s" % (st.dest, st.alloc.line, st.why),
+                         key="array-overrun:%s:%s" % (st.fn.name, st.dest))
+    ctx.counts["S9 array stores not decided (index or size not a counter expression)"] = und
+    ctx.floor("C04.S9 stores into counted arrays", n, 20)
